@@ -1,4 +1,4 @@
-SPECIFICATION JSpec
+SPECIFICATION TSpec
 CONSTANT Reasons <- C01Reasons
 INVARIANT RLVerdict
 CONSTRAINT RLConsumed
